@@ -123,6 +123,14 @@ class Ops:
     if isinstance(v, SV) and isinstance(v.sort, Union):
       # embedding of one union into another through shared payloads is not supported
       raise OutsideSubset(f'cannot coerce {v.sort} to {U}')
+    if isinstance(v, PyTuple):
+      for c in U.ctors.values():
+        if c.tuple_like and len(c.fields) == len(v):
+          try:
+            ts = [self.coerce(x, U.field_sort(c.name, fn)).t for x, (fn, _) in zip(v, c.fields)]
+          except OutsideSubset:
+            continue
+          return SV(U, U.mk(c.name, *ts))
     # constants first
     for c in U.ctors.values():
       if c.is_const is None and v is NONEV and 'NoneType' in c.pytypes:
